@@ -58,13 +58,14 @@ _CRYS, _BASE = {}, {}
 
 
 def base_cell(world):
-    key = (world["crystal"], world["super"], world["Nsolute"], tuple(world["interstitial"]))
+    key = (world["crystal"], world["super"], world["Nsolute"], tuple(world["interstitial"]), bool(world.get("nosym")))
     if key not in _BASE:
         if world["crystal"] not in _CRYS:
             _CRYS[world["crystal"]] = make_crystal(world["crystal"])
         crys, _ = _CRYS[world["crystal"]]
         sup = supercell.Supercell(crys, np.array(SUPERS[world["super"]]),
-                                  interstitial=tuple(world["interstitial"]), Nsolute=world["Nsolute"])
+                                  interstitial=tuple(world["interstitial"]), Nsolute=world["Nsolute"],
+                                  NOSYM=bool(world.get("nosym")))
         glist = sorted(sup.G, key=lambda g: (g.indexmap[0], tuple(g.rot.flatten())))
         _BASE[key] = (sup, glist)
     return _BASE[key]
@@ -642,7 +643,7 @@ class Engine(object):
         if c == "intfirst" and rng.random() < 0.7:
             inter = [0]
         return {"crystal": c, "super": s, "Nsolute": ns, "interstitial": inter,
-                "class": "{}/{}/s{}{}".format(c, s, ns, "i" if inter else ""), "quiet": rng.choice((0, 0, 0.5, 0.9))}
+                "class": "{}/{}/s{}{}".format(c, s, ns, "i" if inter else ""), "quiet": rng.choice((0, 0, 0.5, 0.9)), "nosym": rng.random() < 0.08}
 
     def draw_length(self, rng):
         return rng.choice((3, 8, 20, 40, 60, 100))
